@@ -42,6 +42,12 @@ def ofNRes : NRes → Option JV
   | .ok w => some w
   | .error _ => none
 
+/-- the native succeeded with (structurally) this value -/
+def okIs (r : NRes) (x : JV) : Bool :=
+  match r with
+  | .ok w => w == x
+  | .error _ => false
+
 def ofFOut : Stream.FOut → Option JV
   | .ok outs => some (.arr outs)
   | .error _ => none
@@ -85,6 +91,9 @@ def exObj : JV := .obj [(B "a", jvInt 1), (B "b", .arr [.null, .obj []])]
 def exAwkward : JV := .obj [(B "", .arr []), (B "Key", s "value"), (B "key", s "Key"), (B "name", .bool false), (B "value", s "key")]
 /-- `[5,["x"],{"k":[[],{}]},-0.5]` (deeply nested, empty containers inside) -/
 def exNested : JV := .arr [jvInt 5, .arr [s "x"], .obj [(B "k", .arr [.arr [], .obj []])], .num (.flt (-1/2))]
+
+/-- `{"a":[null,{}],"b":{"":[[]]}}` (the document of the non-vacuity examples) -/
+def exDoc : JV := .obj [([97], .arr [.null, .obj []]), ([98], .obj [([], .arr [.arr []])])]
 
 /-- documents: scalars, empty containers at the root, nested containers, awkward keys -/
 def tieValues : List JV :=
